@@ -46,7 +46,7 @@ Definition mon_C07 (s : shape) (got : bool) : bool := Bool.eqb got (nodupb (tref
 Definition check_C07 (sorting : bool) (laddrs uaddrs : list nat) (s : shape) (got : bool) : verdict :=
   let am := mkam (fun l => nth l laddrs 0) (fun u => nth u uaddrs 0) in
   let ok := Bool.eqb (model_try_new sorting am s) got in
-  mkv ok ok (mon_C07 s got).
+  mkv ok ok (mon_C07 s got) (mon_C07 s got).
 
 (* ---------------------------------------------------------------- C08: one arrangement-independent order *)
 (* history: t: get, lock/read c1, unlock; t2: get, lock/read c2, unlock *)
@@ -63,3 +63,416 @@ Definition mon_C08 (sc : scen) (obs : list callobs) : bool :=
   end.
 
 Definition check_C08 := check_with ps_C08 mon_C08.
+
+(* ================================================================ history monitors ================ *)
+(* What a client can know about a thread from the calls it made and what they returned. *)
+Inductive kst := KFree | KHeld | KLeaked.      (* the thread's key: obtainable / alive (hand, guard, running call) / leaked *)
+
+Record mthread := mkmt {
+  mt_key : kst;
+  mt_guard : option (nat * mode);              (* live guard: collection index, mode *)
+  mt_leak : list (nat * mode)                  (* guards leaked with mem::forget *)
+}.
+Definition mt0 : mthread := mkmt KFree None [].
+
+Definition stop_code (r : rcode) : bool :=
+  match r with RBlockedC | RAborted | RFuelOut => true | _ => false end.
+
+Definition track (mt : mthread) (o : apiop) (r : rcode) : mthread :=
+  match r with
+  | RSkipped | RBlockedC | RAborted | RFuelOut => mt
+  | _ =>
+    match o with
+    | AKeyGet => match r with RB true => mkmt KHeld (mt_guard mt) (mt_leak mt) | _ => mt end
+    | AKeyDrop => mkmt KFree (mt_guard mt) (mt_leak mt)
+    | AKeyForget => mkmt KLeaked (mt_guard mt) (mt_leak mt)
+    | AAcquire c m f =>
+        match f, r with
+        | (FGuard | FTry), (ROk | RPoisoned) => mkmt KHeld (Some (c, m)) (mt_leak mt)
+        | _, RWouldBlock => mt
+        | (FGuard | FTry), _ => mkmt KFree None (mt_leak mt)                (* panicked: key dropped by unwinding *)
+        | (FScoped true _ | FScopedTry true _), _ => mt                       (* key only lent *)
+        | (FScoped false _ | FScopedTry false _), _ => mkmt KFree None (mt_leak mt)
+        end
+    | AGuardDrop => mkmt KFree None (mt_leak mt)
+    | AGuardUnlock => mkmt (match r with ROk => KHeld | _ => KFree end) None (mt_leak mt)
+    | AGuardForget => match mt_guard mt with
+                      | Some g => mkmt KLeaked None (g :: mt_leak mt)
+                      | None => mt
+                      end
+    | APanic => mkmt (match mt_key mt with KLeaked => KLeaked | _ => KFree end) None (mt_leak mt)
+    | _ => mt
+    end
+  end.
+
+Definition holds_by (t : tid) (s : rawst) : bool := writer_is s t || memb t (readers s).
+Definition thread_holds (t : tid) (holds : list rawst) : bool := existsb (holds_by t) holds.
+
+Definition shape_of (sc : scen) (c : nat) : shape :=
+  match nth_error (sc_colls sc) c with Some s => s | None => SSeq [] end.
+
+(* generic fold: [f] judges one call given the tracker state before it, the snapshot before it, the op and
+   its observation *)
+Section Fold.
+  Variable judge : (tid -> mthread) -> list rawst -> tid -> apiop -> callobs -> bool.
+  Fixpoint mfold (ms : tid -> mthread) (prev : list rawst) (hist : list (tid * apiop)) (obs : list callobs) : bool :=
+    match hist, obs with
+    | _, [] => true                                  (* the run was cut short (blocked call): nothing more to judge *)
+    | [], _ :: _ => false
+    | (t, o) :: hr, co :: orr =>
+        Nat.eqb t (co_tid co) && judge ms prev t o co &&
+        (if stop_code (co_ret co) then true
+         else mfold (upd ms t (track (ms t) o (co_ret co))) (co_holds co) hr orr)
+    end.
+End Fold.
+
+Definition run_monitor (judge : (tid -> mthread) -> list rawst -> tid -> apiop -> callobs -> bool)
+           (sc : scen) (obs : list callobs) : bool :=
+  mfold judge (fun _ => mt0) (pre_holds sc) (sc_hist sc) obs.
+
+(* ---------------------------------------------------------------- C06: at most one live key per thread *)
+Definition key_free (k : kst) : bool := match k with KFree => true | _ => false end.
+
+Definition ev_probe_true (e : ev) : bool := match e with EProbe _ true => true | _ => false end.
+
+Definition judge_C06 (ms : tid -> mthread) (prev : list rawst) (t : tid) (o : apiop) (co : callobs) : bool :=
+  let before := ms t in
+  let after := track before o (co_ret co) in
+  (* get returns a key iff none is alive *)
+  (match o, co_ret co with
+   | AKeyGet, RB b => Bool.eqb b (key_free (mt_key before))
+   | AKeyGet, _ => false
+   | _, _ => true
+   end) &&
+  (* while a call runs with the key lent or moved into it, the key is not obtainable *)
+  negb (existsb ev_probe_true (co_evs co)) &&
+  (* after the call the key is obtainable exactly when it is neither alive nor leaked *)
+  (if stop_code (co_ret co) then true else Bool.eqb (co_keyfree co) (key_free (mt_key after))).
+
+Definition mon_C06 := run_monitor judge_C06.
+Definition ps_C06 : projspec := mkps (fun e => match e with EProbe _ _ => true | _ => false end) false false true.
+Definition check_C06 := check_with ps_C06 mon_C06.
+
+(* ---------------------------------------------------------------- C03: a thread that can acquire holds nothing *)
+Definition is_acquire (o : apiop) : bool := match o with AAcquire _ _ _ => true | _ => false end.
+
+(* calls after which the key is back with the thread (or obtainable again) *)
+Definition key_back (o : apiop) (r : rcode) : bool :=
+  match o, r with
+  | (AGuardDrop | AGuardUnlock | APanic), (ROk | RPanicked) => true
+  | AAcquire _ _ (FGuard | FTry), (RWouldBlock | RPanicked) => true
+  | AAcquire _ _ (FScoped _ _ | FScopedTry _ _), (ROk | RWouldBlock | RPanicked) => true
+  | _, _ => false
+  end.
+
+Fixpoint last_blocked (evs : list ev) : option lock :=
+  match evs with
+  | [] => None
+  | e :: r => match last_blocked r with
+              | Some l => Some l
+              | None => match e with ERaw _ _ l RBlocked => Some l | _ => None end
+              end
+  end.
+
+Definition judge_C03 (ms : tid -> mthread) (prev : list rawst) (t : tid) (o : apiop) (co : callobs) : bool :=
+  let leaked := negb (is_nil (mt_leak (ms t))) in
+  let r := co_ret co in
+  (* starting an acquisition: nothing held *)
+  (if is_acquire o && negb (rcode_eqb r RSkipped) then negb (thread_holds t prev) else true) &&
+  (* key back: everything of that guard / call already released *)
+  (if key_back o r && negb leaked then negb (thread_holds t (co_holds co)) else true) &&
+  (* never waits for a lock it holds itself *)
+  (match r, last_blocked (co_evs co) with
+   | RBlockedC, Some l => negb (holds_by t (nth l prev raw_free))
+   | _, _ => true
+   end).
+
+Definition mon_C03 := run_monitor judge_C03.
+Definition ps_C03 : projspec := mkps (fun e => match e with ERaw _ _ _ RBlocked => true | _ => false end) true false false.
+Definition check_C03 := check_with ps_C03 mon_C03.
+
+(* ---------------------------------------------------------------- C04: all-or-nothing, exactly the leaves *)
+Definition is_acq_rop (k : rop) : bool := match k with OLock | OTry | OLockSh | OTrySh => true | _ => false end.
+
+(* locks this call holds when the closure is entered; number of closure entries *)
+Fixpoint closure_scan (held : list lock) (evs : list ev) (want : list lock) : nat * bool :=
+  match evs with
+  | [] => (0, true)
+  | e :: r =>
+      match e with
+      | ERaw _ k l (RUnit | RBool true) =>
+          closure_scan (if is_acq_rop k then l :: held else remove1 l held) r want
+      | EMark _ 1 =>
+          let (n, ok) := closure_scan held r want in
+          (S n, ok && forallb (fun l => memb l held) want)
+      | _ => closure_scan held r want
+      end
+  end.
+
+Definition nonblocking_evs (evs : list ev) : bool :=
+  forallb (fun e => match e with ERaw _ k _ _ => negb (rop_blocking k) | _ => true end) evs.
+
+Definition count_reader (t : tid) (s : rawst) : nat := count t (readers s).
+
+Definition held_once (m : mode) (t : tid) (s : rawst) : bool :=
+  match m with
+  | Ex => writer_is s t && is_nil (readers s)
+  | Sh => Nat.eqb (count_reader t s) 1 && no_writer s
+  end.
+
+Definition judge_C04 (sc : scen) (ms : tid -> mthread) (prev : list rawst) (t : tid) (o : apiop) (co : callobs) : bool :=
+  match o with
+  | AAcquire c m f =>
+      let s := shape_of sc c in
+      let r := co_ret co in
+      let all_held := forallb (fun l => held_once m t (nth l (co_holds co) raw_free)) (leaves s) in
+      let unchanged := holds_sim (co_holds co) prev in
+      let (nclos, clos_ok) := closure_scan [] (co_evs co) (leaves s) in
+      match r with
+      | RSkipped => true
+      | _ =>
+        match f with
+        | FGuard => match r with ROk | RPoisoned => all_held | _ => true end
+        | FTry => nonblocking_evs (co_evs co) &&
+                  match r with
+                  | ROk | RPoisoned => all_held
+                  | RWouldBlock => unchanged && negb (co_keyfree co)
+                  | _ => true
+                  end
+        | FScoped _ _ =>
+            match r with
+            | ROk | RPanicked => Nat.eqb nclos 1 && clos_ok
+            | _ => Nat.eqb nclos 0
+            end
+        | FScopedTry _ _ =>
+            nonblocking_evs (co_evs co) &&
+            match r with
+            | ROk | RPanicked => Nat.eqb nclos 1 && clos_ok
+            | RWouldBlock => Nat.eqb nclos 0 && unchanged
+            | _ => Nat.eqb nclos 0
+            end
+        end
+      end
+  | _ => true
+  end.
+
+Definition mon_C04 (sc : scen) := run_monitor (judge_C04 sc) sc.
+Definition ps_C04 : projspec := mkps (fun e => match e with ERaw _ _ _ _ | EMark _ _ => true | _ => false end) true false true.
+Definition check_C04 := check_with ps_C04 mon_C04.
+
+(* ---------------------------------------------------------------- C05: released exactly once, in mode, by holder *)
+Definition ev_bad (e : ev) : bool := match e with ERaw _ _ _ RBad => true | _ => false end.
+Definition is_rel_rop (k : rop) : bool := match k with OUnlock | OUnlockSh => true | _ => false end.
+
+Definition releases_of (l : lock) (evs : list ev) : nat :=
+  length (filter (fun e => match e with ERaw _ k l' RUnit => is_rel_rop k && Nat.eqb l l' | _ => false end) evs).
+
+Definition guard_leaves (sc : scen) (g : option (nat * mode)) : list lock :=
+  match g with Some (c, _) => leaves (shape_of sc c) | None => [] end.
+
+Definition judge_C05 (sc : scen) (ms : tid -> mthread) (prev : list rawst) (t : tid) (o : apiop) (co : callobs) : bool :=
+  let r := co_ret co in
+  negb (existsb ev_bad (co_evs co)) &&
+  (match o, r with
+   | (AGuardDrop | AGuardUnlock), ROk =>
+       (* every hold of the guard released exactly once, nothing else released *)
+       let gl := guard_leaves sc (mt_guard (ms t)) in
+       forallb (fun l => Nat.eqb (releases_of l (co_evs co)) 1) gl &&
+       Nat.eqb (length (filter (fun e => match e with ERaw _ k _ _ => is_rel_rop k | _ => false end) (co_evs co)))
+               (length gl) &&
+       negb (existsb (fun l => holds_by t (nth l (co_holds co) raw_free)) gl)
+   | AAcquire c _ (FScoped _ _ | FScopedTry _ _), (ROk | RPanicked) =>
+       forallb (fun l => Nat.eqb (releases_of l (co_evs co)) 1) (leaves (shape_of sc c))
+   | _, _ => true
+   end).
+
+(* when no guard is alive or leaked any more, every lock is as free as it was at the start *)
+Fixpoint final_track (ms : tid -> mthread) (hist : list (tid * apiop)) (obs : list callobs) : (tid -> mthread) * bool :=
+  match hist, obs with
+  | (t, o) :: hr, co :: orr =>
+      if stop_code (co_ret co) then (ms, true)
+      else final_track (upd ms t (track (ms t) o (co_ret co))) hr orr
+  | _, _ => (ms, false)
+  end.
+
+Definition threads_of (hist : list (tid * apiop)) : list tid := map fst hist.
+
+Definition mon_C05 (sc : scen) (obs : list callobs) : bool :=
+  run_monitor (judge_C05 sc) sc obs &&
+  (let (ms, cut) := final_track (fun _ => mt0) (sc_hist sc) obs in
+   if cut then true
+   else if forallb (fun t => is_none (mt_guard (ms t)) && is_nil (mt_leak (ms t))) (threads_of (sc_hist sc))
+        then holds_sim (last (map co_holds obs) (pre_holds sc)) (pre_holds sc)
+        else true).
+
+Definition ps_C05 : projspec :=
+  mkps (fun e => match e with ERaw _ k _ _ => is_rel_rop k | _ => false end) true false false.
+Definition check_C05 := check_with ps_C05 mon_C05.
+
+(* ---------------------------------------------------------------- C17: non-acquiring operations *)
+Definition is_nonacq (o : apiop) : bool :=
+  match o with AIsPoisoned _ | AClearPoison _ | AFmt _ | AGuardRead _ | AKeyGet | AKeyDrop | AKeyForget => true | _ => false end.
+
+Definition judge_C17 (ms : tid -> mthread) (prev : list rawst) (t : tid) (o : apiop) (co : callobs) : bool :=
+  if is_nonacq o then
+    nonblocking_evs (co_evs co) && negb (rcode_eqb (co_ret co) RBlockedC) && holds_sim (co_holds co) prev
+  else true.
+
+Definition mon_C17 := run_monitor judge_C17.
+Definition ps_C17 : projspec := mkps ev_is_raw true false false.
+Definition check_C17 := check_with ps_C17 mon_C17.
+
+(* ---------------------------------------------------------------- C11: user panics leak nothing *)
+Definition has_panic (f : flavour) : bool :=
+  match f with
+  | FScoped _ b | FScopedTry _ b => existsb (fun c => match c with CPanic => true | _ => false end) b
+  | _ => false
+  end.
+
+Definition judge_C11 (sc : scen) (ms : tid -> mthread) (prev : list rawst) (t : tid) (o : apiop) (co : callobs) : bool :=
+  let r := co_ret co in
+  let leaked := negb (is_nil (mt_leak (ms t))) in
+  let clean := negb (existsb ev_bad (co_evs co)) in
+  match o with
+  | APanic =>
+      (* the panic reaches the caller; the live guard's holds are released once; the key is obtainable again *)
+      rcode_eqb r RPanicked && clean &&
+      (if leaked then true else negb (thread_holds t (co_holds co))) &&
+      forallb (fun l => Nat.eqb (releases_of l (co_evs co)) 1) (guard_leaves sc (mt_guard (ms t))) &&
+      Bool.eqb (co_keyfree co) (match mt_key (ms t) with KLeaked => false | _ => true end)
+  | AAcquire c m f =>
+      if has_panic f then
+        match r with
+        | RSkipped | RWouldBlock | RBlockedC => true
+        | _ =>
+            let (nclos, _) := closure_scan [] (co_evs co) [] in
+            (* the closure ran, so its panic must propagate, every hold is released once, the key survives *)
+            (if Nat.eqb nclos 1 then rcode_eqb r RPanicked else true) && clean &&
+            negb (thread_holds t (co_holds co)) &&
+            forallb (fun l => Nat.eqb (releases_of l (co_evs co)) 1) (leaves (shape_of sc c)) &&
+            Bool.eqb (co_keyfree co) (negb (is_lent f))
+        end
+      else true
+  | _ => true
+  end.
+
+Definition mon_C11 (sc : scen) := run_monitor (judge_C11 sc) sc.
+Definition ps_C11 : projspec := mkps (fun e => match e with ERaw _ k _ _ => is_rel_rop k | EMark _ _ => true | _ => false end) true false true.
+Definition check_C11 := check_with ps_C11 mon_C11.
+
+(* ---------------------------------------------------------------- C10: poisoning tracks panics during holds *)
+Inductive pst := PClean | PPoisoned | PDontCare.
+
+Definition pst_after_panic (m : mode) (old : pst) : pst :=
+  match old, m with
+  | PPoisoned, _ => PPoisoned
+  | _, Ex => PPoisoned
+  | _, Sh => PDontCare          (* the statement leaves a panic during a shared hold open *)
+  end.
+
+Fixpoint see_bools (evs : list ev) : list bool :=
+  match evs with
+  | [] => []
+  | ESee _ b :: r => b :: see_bools r
+  | _ :: r => see_bools r
+  end.
+
+Definition pst_agrees (s : pst) (b : bool) : bool :=
+  match s with PClean => negb b | PPoisoned => b | PDontCare => true end.
+
+Fixpoint zip_agree (ps : pid -> pst) (pids : list pid) (bs : list bool) : bool :=
+  match pids, bs with
+  | p :: pr, b :: br => pst_agrees (ps p) b && zip_agree ps pr br
+  | _, _ => true
+  end.
+
+Definition pids_of (sc : scen) (c : nat) : list pid := gpoisons (gitems (shape_of sc c)).
+
+Definition upd_all (ps : pid -> pst) (pids : list pid) (f : pst -> pst) : pid -> pst :=
+  fold_left (fun acc p => upd acc p (f (acc p))) pids ps.
+
+(* [strict]: demand poisoning also when the panic unwound out of a scoped call of a *collection
+   containing* the wrapper (the statement does; the code does not: known finding) *)
+Definition c10_step (strict : bool) (sc : scen) (ms : tid -> mthread) (ps : pid -> pst)
+           (t : tid) (o : apiop) (co : callobs) : (pid -> pst) :=
+  let r := co_ret co in
+  match o with
+  | APanic =>
+      match mt_guard (ms t), r with
+      | Some (c, m), RPanicked => upd_all ps (pids_of sc c) (pst_after_panic m)
+      | _, _ => ps
+      end
+  | AAcquire c m f =>
+      let (nclos, _) := closure_scan [] (co_evs co) [] in
+      if has_panic f && Nat.eqb nclos 1 && rcode_eqb r RPanicked then
+        match root_poison (shape_of sc c) with
+        | Some p =>
+            (* the wrapper's own scoped call poisons it; wrappers nested below it only in strict mode *)
+            let ps1 := upd ps p (pst_after_panic m (ps p)) in
+            upd_all ps1 (filter (fun q => negb (Nat.eqb q p)) (pids_of sc c))
+                    (if strict then pst_after_panic m else fun _ => PDontCare)
+        | None => upd_all ps (pids_of sc c) (if strict then pst_after_panic m else fun _ => PDontCare)
+        end
+      else ps
+  | AClearPoison c =>
+      match root_poison (shape_of sc c), r with
+      | Some p, ROk => upd ps p PClean
+      | _, _ => ps
+      end
+  | _ => ps
+  end.
+
+Definition c10_judge (sc : scen) (ps ps' : pid -> pst) (t : tid) (o : apiop) (co : callobs) : bool :=
+  let r := co_ret co in
+  (* every probe agrees with what the history demands *)
+  forallb (fun p => pst_agrees (ps' p) (nth p (co_psn co) false)) (seq 0 (sc_npids sc)) &&
+  match o with
+  | AAcquire c m f =>
+      match r with
+      | RSkipped | RWouldBlock | RBlockedC => true
+      | _ =>
+        (* the Ok/Err wrappers seen in the guard / closure argument agree with the state before the call *)
+        zip_agree ps (pids_of sc c) (see_bools (co_evs co)) &&
+        match f with
+        | FGuard | FTry =>
+            match root_poison (shape_of sc c), r with
+            | Some p, ROk => pst_agrees (ps p) false
+            | Some p, RPoisoned => pst_agrees (ps p) true
+            | None, ROk => true
+            | _, _ => false            (* a panic in user code never makes a lock refuse or panic *)
+            end
+        | FScoped _ _ | FScopedTry _ _ =>
+            match r with
+            | ROk => true
+            | RPanicked => has_panic f
+            | _ => false
+            end
+        end
+      end
+  | AIsPoisoned c =>
+      match root_poison (shape_of sc c), r with
+      | Some p, RB b => pst_agrees (ps p) b
+      | _, _ => true
+      end
+  | _ => true
+  end.
+
+Fixpoint c10_fold (strict : bool) (sc : scen) (ms : tid -> mthread) (ps : pid -> pst)
+         (hist : list (tid * apiop)) (obs : list callobs) : bool :=
+  match hist, obs with
+  | _, [] => true
+  | [], _ :: _ => false
+  | (t, o) :: hr, co :: orr =>
+      let ps' := c10_step strict sc ms ps t o co in
+      Nat.eqb t (co_tid co) &&
+      (if stop_code (co_ret co) then true
+       else c10_judge sc ps ps' t o co &&
+            c10_fold strict sc (upd ms t (track (ms t) o (co_ret co))) ps' hr orr)
+  end.
+
+Definition mon_C10 (strict : bool) (sc : scen) (obs : list callobs) : bool :=
+  c10_fold strict sc (fun _ => mt0) (fun _ => PClean) (sc_hist sc) obs.
+
+Definition ps_C10 : projspec := mkps (fun e => match e with ESee _ _ => true | _ => false end) false true false.
+
+Definition check_C10 := check_with2 ps_C10 (mon_C10 true) (mon_C10 false).
